@@ -15,7 +15,7 @@ import sim as simlib
 from props.c05 import CFG, split_messages
 
 
-def make_stream(rng, n_msgs):
+def make_stream(rng, n_msgs, big=False):
     """messages the peer sends after the CEA: (kind, dump) in order"""
     from bromelia.base import DiameterRequest, DiameterAnswer
     from bromelia.messages import DWR, DWA
@@ -23,6 +23,13 @@ def make_stream(rng, n_msgs):
     out = []
     for i in range(n_msgs):
         r = rng.random()
+        if big and rng.random() < 0.6:
+            # a message of exactly k * 64 KiB (header 20 + AVP header 8 + data, no padding): read sizes at buffer-size multiples
+            k = rng.choice([1, 1, 2, 4])
+            m = DiameterRequest(command_code=316, application_id=16777251)
+            m.append(UserNameAVP("z" * (65536 * k - 28)))
+            out.append(("app", m.dump()))
+            continue
         if r < 0.12:
             m = DiameterRequest(command_code=316, application_id=16777251)          # a bare header: 20 bytes, no AVPs
             out.append(("app", m.dump()))
@@ -56,6 +63,8 @@ def segment(rng, stream, mode):
             n = rng.choice([1, 2, 3, 5, 19, 20, 21])
         elif mode == "big":
             n = rng.choice([100, 400, 1000, 5000])
+        elif mode == "64k":
+            n = rng.choice([65536, 65536, 65536, 131072, 32768, 262144])
         else:
             n = rng.choice([1, 2, 3, 5, 19, 20, 21, 40, 100, 400])
         cuts.append(stream[pos:pos + n])
@@ -99,7 +108,7 @@ def scenario(seed, n_msgs, mode, lines, coalesce=False):
         self.__dict__["_recv_data_stream_value"] = v
     TR.TcpConnection._recv_data_stream = property(_get_rs, _set_rs)
     d = Diameter(config=dict(CFG))
-    sent = make_stream(rng, n_msgs)
+    sent = make_stream(rng, n_msgs, big=(mode == "64k"))
     n_app = sum(1 for k, _ in sent if k == "app")
     got = []
     state = {"cea": False, "chunks": [], "cea_taken": False, "cea_len": 0}
@@ -137,8 +146,15 @@ def scenario(seed, n_msgs, mode, lines, coalesce=False):
                 state["cut"] = True
             if state["chunks"] and not sock.inbox and rng.random() < 0.35:
                 sock.inbox.append(state["chunks"].pop(0))
-            return len(got) == n_app and not state["chunks"] and not sock.inbox and d._association._recv_messages.empty() \
-                and not d._association.transport._recv_data_stream
+            _a = d._association
+            if state.get("cut") and (_a is None or _a.transport is None or _a.transport._stop_threads):
+                # the node gave the connection up while the peer was only sending well-formed messages
+                state["node_closed"] = True
+                return True
+            if _a is None or _a.transport is None:
+                return False
+            return len(got) == n_app and not state["chunks"] and not sock.inbox and _a._recv_messages.empty() \
+                and not _a.transport._recv_data_stream
         status = s.run(until=until)
         a = d._association
         taken = [e[2] for e in log if e[0] == "get" and a is not None and e[1] == id(a._recv_messages)]
@@ -150,12 +166,15 @@ def scenario(seed, n_msgs, mode, lines, coalesce=False):
         undo()
         del TR.TcpConnection._recv_data_stream
     return {"status": status, "sent": sent, "got": got, "taken": taken, "log": log, "blocked": blocked, "excs": excs, "qids": qids,
-            "steps": s.steps, "n_app": n_app, "cea_len": len(state.get("cea_bytes", b"")), "undelivered_by_network": len(state["chunks"]) + len(sock.inbox) if state.get("cut") else -1}
+            "steps": s.steps, "n_app": n_app, "node_closed": bool(state.get("node_closed")), "cea_len": len(state.get("cea_bytes", b"")), "undelivered_by_network": len(state["chunks"]) + len(sock.inbox) if state.get("cut") else -1}
 
 
 def verdict(res):
     want_app = [b for k, b in res["sent"] if k == "app"]
     got = res["got"]
+    if res.get("node_closed") and len(got) < len(want_app):
+        return ("the node tore the connection down while the peer was sending well-formed messages: %d of %d application messages never "
+                "delivered" % (len(want_app) - len(got), len(want_app)), {"delivered": len(got), "sent": len(res["sent"])})
     if any(g is None for g in got):
         return ("get_message() returned nothing on an open connection", {"position": got.index(None)})
     for i, g in enumerate(got):
@@ -272,7 +291,9 @@ def explore(chk, rng, n, tag):
             break
         seed = rng.randrange(2 ** 30)
         n_msgs = rng.choice([1, 3, 6, 12])
-        mode = rng.choice(["bytes", "small", "mixed", "mixed", "big"])
+        mode = rng.choice(["bytes", "small", "mixed", "mixed", "big", "64k"])
+        if mode == "64k":
+            n_msgs = min(n_msgs, 3)
         lines_mode = rng.random() < 0.25
         if mode == "bytes" and lines_mode:
             n_msgs = min(n_msgs, 3)                  # one byte per read under line-level hand-over is slow: keep it within the budget
